@@ -59,6 +59,11 @@ def params_from(index, mseed):
                 t_x=rng.uniform(-1000, 1000), t_y=rng.uniform(-1000, 1000), t_z=rng.uniform(-1000, 1000))
     for name, o in zip(SW, on):
         p[name] = float(mags[name]) if o else 0.0
+    if (index // 11 + mseed) % 5 == 0:
+        # the geometry has no preferred length unit: the same experiment written in millimetres or metres
+        u = 1e-3 if (index // 55 + mseed) % 2 else 1e-6
+        for name in ("distance", "y_size", "z_size", "t_x", "t_y", "t_z"):
+            p[name] = p[name] * u
     sc = rng.uniform(0, 4096, NPK)
     fc = rng.uniform(0, 4096, NPK)
     # the pixel nearest to the beam centre, and the exact centre
@@ -97,7 +102,7 @@ class Cmp(object):
         self.p = p
         self.ref = ref
         self.gt = 1e-11 / p["wavelength"]
-        self.xt = 1e-12 * abs(p["distance"]) + 1e-9
+        self.xt = 1e-12 * (abs(p["distance"]) + 4096 * max(abs(p["y_size"]), abs(p["z_size"])))
 
     def add(self, kind, route, what, err, tol):
         self.fails.append(fail(kind, "%s: %s differs from the reference formulas by %.3g (tolerance %.3g); "
